@@ -191,6 +191,10 @@ def plan(tier):
     w = list(BM.wrapped(BM.chain1(L), 2, True)) + list(BM.wrapped(BM.chain1(0), 2, True, delayed=True))
     out.append(('wrapped-u1', w, dict(nsub=1, compressed=False, distinct=True, compiled=True), 0))
     out.append(('wrapped-c2', w if tier == 'thorough' else w[::3], dict(nsub=2, compressed=True, compiled=True), 0))
+    # class-33 elements as ordinary members after a finished quality-information / marker block
+    t33 = list(BM.trailing_class33(L))
+    out.append(('trailing-class33-u1', t33, dict(nsub=1, compressed=False, distinct=True, compiled=True), 0))
+    out.append(('trailing-class33-c2', t33, dict(nsub=2, compressed=True, distinct=True), 0))
     if tier == 'thorough':
         out.append(('chain1-all-u1', list(BM.chain1(2)), dict(nsub=1, compressed=False), 2))
         out.append(('chain1-u3-diff', list(BM.chain1(0, 3)), dict(nsub=3, compressed=False, vmap=[0, 1, 2]), 0))
